@@ -25,7 +25,8 @@ META = {
         'version/metadata/columns; (D7) references are followed only on non-final segments, through the id index; '
         '(D8) the literal sub-grammar agrees with its ZINC sibling (token languages and unescape step).  (D8) text chain: the filter text reaches hs_filter.parseString unchanged through filter_function, _filter_function and parse_filter.  (D7 also) the id index that `->` dereferencing uses is rebuilt/updated on every mutation (clauses shared with C15.D1/D3).  Also (D3): the binary branch template keeps the node or each operand parenthesised; (D5) __repr__ of every literal class shows its fields exactly (no rounding/formatting); (D8) the text chain starts at Grid.filter.  Not decided: '
         'semantic equivalence of compiled code and filter over all programs x data as an execution; spacing variants.'
-        ' Also (D7): the last hop of a path is recognised by position, not by the name of the segment.'),
+        ' Also (D7): the last hop of a path is recognised by position, not by the name of the segment.'
+        ' Also (D5): the generated source is never the left operand of `%`.'),
     'rule_text': 'obligations = grammar-structure facts, fold index coverage, operator-table rows, sentinel methods, '
                  'literal kinds x resolvability, generator branches, loop facts, sibling pairs',
     'trusted_base': ['pyparsing And/MatchFirst/ZeroOrMore token order; Python evaluates `a and b or c` with the usual '
@@ -65,6 +66,9 @@ def run(ctx):
     # while a filter is cached (the name-allocation clauses of C13.D1/D2, recorded here as C11.D9)
     from . import c13
     c13.run(_Renamed(ctx, 'C13.', 'C11.D9/'))
+    # literals reach the generated function as their repr(): the assembled source is not itself a %-format template
+    from . import c12
+    c12.format_of_fragments(ctx, m, 'C11.D5')
 
 
 class _Renamed(object):
